@@ -137,6 +137,10 @@ func NewSchema(config SchemaConfig) (Schema, error) {
 		}
 	}
 
+	// Possible-type tables are read concurrently by every request; build
+	// them here rather than on first use.
+	schema.buildPossibleTypeMap()
+
 	// Add extensions from config
 	if len(config.Extensions) != 0 {
 		schema.extensions = config.Extensions
@@ -150,9 +154,9 @@ func NewSchema(config SchemaConfig) (Schema, error) {
 func (gq *Schema) AddImplementation() error {
 
 	// Keep track of all implementations by interface name.
-	if gq.implementations == nil {
-		gq.implementations = map[string][]*Object{}
-	}
+	gq.implementations = map[string][]*Object{}
+	gq.possibleTypeMap = nil
+	defer gq.buildPossibleTypeMap()
 	for _, ttype := range gq.typeMap {
 		if ttype, ok := ttype.(*Object); ok {
 			for _, iface := range ttype.Interfaces() {
@@ -241,6 +245,29 @@ func (gq *Schema) PossibleTypes(abstractType Abstract) []*Object {
 	return []*Object{}
 }
 func (gq *Schema) IsPossibleType(abstractType Abstract, possibleType *Object) bool {
+	if typeMap, ok := gq.possibleTypeMap[abstractType.Name()]; ok {
+		return typeMap[possibleType.Name()]
+	}
+	return gq.isPossibleTypeSlow(abstractType, possibleType)
+}
+
+// buildPossibleTypeMap precomputes, for every abstract type of the schema,
+// the set of object types it can resolve to.
+func (gq *Schema) buildPossibleTypeMap() {
+	possibleTypeMap := map[string]map[string]bool{}
+	for _, ttype := range gq.typeMap {
+		if abstractType, ok := ttype.(Abstract); ok && IsAbstractType(ttype) {
+			typeMap := map[string]bool{}
+			for _, possibleType := range gq.PossibleTypes(abstractType) {
+				typeMap[possibleType.Name()] = true
+			}
+			possibleTypeMap[abstractType.Name()] = typeMap
+		}
+	}
+	gq.possibleTypeMap = possibleTypeMap
+}
+
+func (gq *Schema) isPossibleTypeSlow(abstractType Abstract, possibleType *Object) bool {
 	possibleTypeMap := gq.possibleTypeMap
 	if possibleTypeMap == nil {
 		possibleTypeMap = map[string]map[string]bool{}
